@@ -5,7 +5,7 @@ import ast
 from ..program import AnalysisError, walk_local, dotted
 from ..analysis import Spec, src, class_const, const_value
 from ..deps import Deps
-from ..rules import (inside, before, GWF, EXC, mpt, need_func, stores_to, raise_class,
+from ..rules import (guard_paths, inside, before, GWF, EXC, mpt, need_func, stores_to, raise_class,
                      chained_assign_value, is_const, explicit_exits)
 from . import common
 from .c04 import signature, diff_sig
@@ -317,39 +317,55 @@ def fix_versions(prog, an, rep):
     f = need_func(an, J + '.check_fix_versions')
     d = Deps(an, f, base='job')
     d.f_params_as_base = True
-    guards = []
-    for n in walk_local(f.node, include_root=False):
-        if isinstance(n, ast.If) and any(
-                isinstance(s, ast.Raise) for s in n.body):
-            guards.append(n)
-    sigs = []
-    for g in guards:
-        sigs.append(signature(d, g.test, expand=False))
+    c = an.cfg(f)
+    raises = [n for n in c.nodes.values() if n.kind == 'raise_stmt']
+    rep.floor('C11 raise statements in check_fix_versions', len(raises), 1)
+    # the comparison that decides each path to a raise (path-sensitive: a
+    # boolean local set on both arms of an if is read as the comparison
+    # assigned on that path)
+    FLIP = {'in': 'not in', 'not in': 'in', '==': '!=', '!=': '==',
+            'is': 'is not', 'is not': 'is'}
+    sigs = set()
+    for path in guard_paths(an, f, [n.id for n in raises]):
+        if not path:
+            sigs.add(repr(('unconditional',)))
+            continue
+        atom, pol, _ = path[-1]
+        while isinstance(atom, ast.UnaryOp) and isinstance(atom.op, ast.Not):
+            atom, pol = atom.operand, not pol
+        sg = signature(d, atom, expand=False)
+        if sg[0] == 'cmp':
+            op = sg[2] if pol else FLIP.get(sg[2], '?' + sg[2])
+            lft, rgt = sg[1], sg[3]
+            if op in ('==', '!='):
+                lft, rgt = sorted((lft, rgt), key=repr)
+            sg = ('cmp', lft, op, rgt)
+        else:
+            sg = (sg, pol)
+        sigs.add(repr(sg))
     rep.evaluated(2)
-    norm = sorted(repr(s) for s in sigs)
+    norm = sorted(sigs)
     # 're.compile()' marks a value that went through one of the two
     # version filters: the hotfix target is recognised by a filter and
     # looked up among ALL issue versions; the general comparison uses the
     # FILTERED issue versions against the unfiltered expected versions
+    pair = sorted([('fields.fixVersions', 're.compile()'),
+                   ('git.cascade.target_versions',)], key=repr)
     want = sorted([
         repr(('cmp', ('git.cascade.target_versions', 're.compile()'),
               'not in', ('fields.fixVersions',))),
-        repr(('cmp', ('fields.fixVersions', 're.compile()'), '!=',
-              ('git.cascade.target_versions',)))])
+        repr(('cmp', pair[0], '!=', pair[1]))])
     rep.check(norm == want, R, f.qname + ': raises iff hotfix target not '
               'listed / checked versions != expected versions', f.where(),
               'fix-version guards are %s, expected %s' % (norm, want),
               detail=str(norm))
-    for g in guards:
-        for s in g.body:
-            if isinstance(s, ast.Raise):
-                k = raise_class(an, f, s)
-                rep.check((k or '').endswith('.IncorrectFixVersion'), R,
-                          f.qname + ': version mismatch raises '
-                          'IncorrectFixVersion', f.where(s),
-                          'raises %s' % k)
+    for r in raises:
+        k = raise_class(an, f, r.ast)
+        rep.check((k or '').endswith('.IncorrectFixVersion'), R,
+                  f.qname + ': version mismatch raises '
+                  'IncorrectFixVersion', f.where(r),
+                  'raises %s' % k)
     # hotfix arm selected only for a single 4-number expected version
-    c = an.cfg(f)
     normal_exit_ok = c.exit in c.reachable(use_exc=False)
     rep.check(normal_exit_ok, R, f.qname + ': matching versions pass',
               f.where(), 'check_fix_versions can never return normally')
